@@ -57,6 +57,10 @@ Definition hex4 (hs : list N) : option N :=
 Definition esc2_table : list (N * N) :=
   [(0x22, 0x22); (0x5C, 0x5C); (0x2F, 0x2F); (0x62, 8); (0x66, 12); (0x6E, 10); (0x72, 13); (0x74, 9)].
 
+(* the supplementary scalar denoted by a surrogate pair *)
+Definition surr_pair (hi lo : N) : N := 0x10000 + (hi - 0xD800) * 1024 + (lo - 0xDC00).
+Arguments surr_pair : simpl never.
+
 (* [JChars body cs]: the bytes between the quotes denote the scalars [cs] *)
 Inductive JChars : list N -> list N -> Prop :=
 | JC_nil : JChars [] []
@@ -71,7 +75,7 @@ Inductive JChars : list N -> list N -> Prop :=
     hex4 hs1 = Some hi -> 0xD800 <= hi < 0xDC00 ->
     hex4 hs2 = Some lo -> 0xDC00 <= lo < 0xE000 -> JChars r cs ->
     JChars ([0x5C; 0x75] ++ hs1 ++ [0x5C; 0x75] ++ hs2 ++ r)
-           (0x10000 + (hi - 0xD800) * 1024 + (lo - 0xDC00) :: cs).
+           (surr_pair hi lo :: cs).
 
 (* [JString txt cs]: txt is a quoted JSON string denoting the scalars cs *)
 Inductive JString : list N -> list N -> Prop :=
@@ -127,10 +131,10 @@ with JMembers : list N -> list (list N * jv) -> Prop :=
     ws w1 -> JString kt k -> ws w2 -> Json vt v -> JMembers r kvs ->
     JMembers (w1 ++ kt ++ w2 ++ [0x3A] ++ vt ++ [0x2C] ++ r) ((k, v) :: kvs).
 
-Scheme JVal_mind := Induction for JVal Sort Prop
-  with Json_mind := Induction for Json Sort Prop
-  with JElems_mind := Induction for JElems Sort Prop
-  with JMembers_mind := Induction for JMembers Sort Prop.
+Scheme JVal_mind := Minimality for JVal Sort Prop
+  with Json_mind := Minimality for Json Sort Prop
+  with JElems_mind := Minimality for JElems Sort Prop
+  with JMembers_mind := Minimality for JMembers Sort Prop.
 Combined Scheme Json_mutind from JVal_mind, Json_mind, JElems_mind, JMembers_mind.
 
 (* ================================================================== *)
@@ -221,7 +225,7 @@ Fixpoint span_digits (s : list N) : list N * list N :=
   end.
 
 (* value of a digit string (any length, leading zeros allowed) *)
-Definition dval (l : list N) : N := fold_left (fun a b => a * 10 + (b - 48)) l 0.
+Definition digits_val (l : list N) : N := fold_left (fun a b => a * 10 + (b - 48)) l 0.
 
 Record numparts := {
   np_neg : bool;
@@ -278,9 +282,9 @@ Definition is_json_number (t : list N) : bool :=
 (* the decimal a number text denotes: (m, e) stands for m * 10^e *)
 Definition np_dec (p : numparts) : Z * Z :=
   let fd := match np_frac p with Some d => d | None => [] end in
-  let m := Z.of_N (dval (np_int p ++ fd)) in
+  let m := Z.of_N (digits_val (np_int p ++ fd)) in
   let ex := match np_exp p with
-            | Some (_, sg, d) => match sg with [45] => (- Z.of_N (dval d))%Z | _ => Z.of_N (dval d) end
+            | Some (_, sg, d) => match sg with [45] => (- Z.of_N (digits_val d))%Z | _ => Z.of_N (digits_val d) end
             | None => 0%Z end in
   ((if np_neg p then - m else m)%Z, (ex - Z.of_nat (length fd))%Z).
 
@@ -415,89 +419,134 @@ Definition num_stop (r : list N) : Prop :=
 Lemma digits_head ds : digits ds -> exists d t, ds = d :: t /\ digit d /\ Forall digit t.
 Proof. intros [Hn Hd]. destruct ds as [|d t]; [congruence|]. inversion Hd; subst. eauto. Qed.
 
-Lemma scan_number_complete t r : JNumber t -> num_stop r ->
-  exists p, scan_number (t ++ r) = Some (p, r) /\ np_text p = t.
+(* well-formed number parts: exactly the texts of the number grammar *)
+Definition np_wf (p : numparts) : Prop :=
+  JInt (np_int p) /\
+  match np_frac p with Some d => digits d | None => True end /\
+  match np_exp p with
+  | Some (e, sg, d) => (e = 101 \/ e = 69) /\ (sg = [] \/ sg = [43] \/ sg = [45]) /\ digits d
+  | None => True
+  end.
+
+Lemma JNumber_np t : JNumber t <-> exists p, np_wf p /\ np_text p = t.
 Proof.
-  intros HN Hr. destruct HN as [sg i f e Hsg HI HF HE].
+  split.
+  - intros [sg i f e Hsg HI HF HE].
+    exists {| np_neg := match sg with [] => false | _ => true end; np_int := i;
+              np_frac := match f with [] => None | _ :: d => Some d end;
+              np_exp := match e with
+                        | [] => None
+                        | e0 :: u => Some (e0, match u with c :: _ => if (c =? 43) || (c =? 45) then [c] else [] | [] => [] end,
+                                           match u with c :: u' => if (c =? 43) || (c =? 45) then u' else u | [] => [] end)
+                        end |}.
+    unfold np_wf, np_text; cbn [np_neg np_int np_frac np_exp]. split; [split; [auto|split]|].
+    + destruct HF; auto.
+    + destruct HE as [|e0 sg' ds He0 Hsg' Hds]; [auto|].
+      destruct (digits_head _ Hds) as [d [t0 [-> [Hd Ht0]]]]. unfold digit in Hd.
+      destruct Hsg' as [-> | [-> | ->]]; cbn [app].
+      * replace ((d =? 43) || (d =? 45)) with false by lia. auto.
+      * cbn. auto.
+      * cbn. auto.
+    + f_equal; [destruct Hsg as [-> | ->]; reflexivity|]. f_equal. f_equal; [destruct HF; reflexivity|].
+      destruct HE as [|e0 sg' ds He0 Hsg' Hds]; [reflexivity|].
+      destruct (digits_head _ Hds) as [d [t0 [-> [Hd Ht0]]]]. unfold digit in Hd.
+      destruct Hsg' as [-> | [-> | ->]]; cbn [app]; [|reflexivity|reflexivity].
+      replace ((d =? 43) || (d =? 45)) with false by lia. reflexivity.
+  - intros [[neg i f e] [[HI [HF HE]] <-]]. unfold np_text; cbn [np_neg np_int np_frac np_exp] in *.
+    constructor; auto.
+    + destruct neg; auto.
+    + destruct f; constructor; auto.
+    + destruct e as [[[e0 sg] d]|]; [|constructor]. destruct HE as [? [? ?]]. constructor; auto.
+Qed.
+
+Lemma scan_number_complete_np p r : np_wf p -> num_stop r -> scan_number (np_text p ++ r) = Some (p, r).
+Proof.
+  destruct p as [neg i f e]. unfold np_wf, np_text; cbn [np_neg np_int np_frac np_exp].
+  intros [HI [HF HE]] Hr.
   destruct (JInt_int_ok _ HI) as [Ok Hi].
   assert (Hi0 : exists d0 i', i = d0 :: i' /\ digit d0).
   { destruct i as [|d0 i']; [discriminate|]. inversion Hi; subst. eauto. }
   destruct Hi0 as [d0 [i' [Ei Hd0]]].
+  set (ft := match f with Some d => 46 :: d | None => [] end) in *.
+  set (et := match e with Some (e0, sg, d) => e0 :: sg ++ d | None => [] end) in *.
   unfold scan_number.
   (* sign *)
-  assert (Hs : match (sg ++ i ++ f ++ e) ++ r with
-               | b :: t0 => if b =? 45 then (true, t0) else (false, (sg ++ i ++ f ++ e) ++ r)
-               | [] => (false, (sg ++ i ++ f ++ e) ++ r) end
-               = (match sg with [] => false | _ => true end, i ++ (f ++ e ++ r))).
-  { destruct Hsg as [-> | ->]; cbn [app].
+  assert (Hs : match ((if neg then [45] else []) ++ i ++ ft ++ et) ++ r with
+               | b :: t0 => if b =? 45 then (true, t0) else (false, ((if neg then [45] else []) ++ i ++ ft ++ et) ++ r)
+               | [] => (false, ((if neg then [45] else []) ++ i ++ ft ++ et) ++ r) end
+               = (neg, i ++ (ft ++ et ++ r))).
+  { destruct neg; cbn [app].
+    - cbn. rewrite <- !app_assoc. reflexivity.
     - rewrite Ei. cbn [app]. unfold digit in Hd0. replace (d0 =? 45) with false by lia.
-      rewrite <- !app_assoc. reflexivity.
-    - cbn. rewrite <- !app_assoc. reflexivity. }
+      rewrite <- !app_assoc. reflexivity. }
   rewrite Hs; clear Hs.
-  (* the stop condition after each part *)
-  assert (Stop_e : match e ++ r with b :: _ => is_digit b = false | [] => True end).
-  { destruct HE as [|e0 sg' ds He0 _ _]; cbn [app].
-    - destruct r; [exact I|]. apply Hr.
-    - unfold is_digit. lia. }
-  assert (Stop_f : match f ++ e ++ r with b :: _ => is_digit b = false | [] => True end).
-  { destruct HF as [|ds _]; cbn [app]; [exact Stop_e|]. reflexivity. }
-  rewrite (span_digits_complete i (f ++ e ++ r) Hi Stop_f). rewrite Ok. cbn [negb].
+  assert (Stop_r : match r with b :: _ => is_digit b = false | [] => True end).
+  { destruct r; [exact I|]. apply Hr. }
+  assert (Stop_e : match et ++ r with b :: _ => is_digit b = false | [] => True end).
+  { subst et. destruct e as [[[e0 sg] d]|]; cbn [app]; [|exact Stop_r].
+    destruct HE as [He0 _]. unfold is_digit. lia. }
+  assert (Stop_f : match ft ++ et ++ r with b :: _ => is_digit b = false | [] => True end).
+  { subst ft. destruct f; cbn [app]; [reflexivity|exact Stop_e]. }
+  rewrite (span_digits_complete i (ft ++ et ++ r) Hi Stop_f). rewrite Ok. cbn [negb].
   (* fraction *)
-  assert (Hf : match f ++ e ++ r with
+  assert (Hf : match ft ++ et ++ r with
                | b :: t0 => if b =? 46 then
                               let '(d, r0) := span_digits t0 in
                               match d with [] => None | _ => Some (Some d, r0) end
-                            else Some (None, f ++ e ++ r)
-               | [] => Some (None, f ++ e ++ r) end
-               = Some (match f with [] => None | _ :: d => Some d end, e ++ r)).
-  { destruct HF as [|ds Hds]; cbn [app].
-    - destruct (e ++ r) as [|b t0] eqn:Eer; [reflexivity|].
+                            else Some (None, ft ++ et ++ r)
+               | [] => Some (None, ft ++ et ++ r) end
+               = Some (f, et ++ r)).
+  { subst ft. destruct f as [ds|]; cbn [app].
+    - cbn -[span_digits]. destruct (digits_head _ HF) as [d [t0 [-> [Hd Ht0]]]].
+      rewrite (span_digits_complete (d :: t0) (et ++ r)); [reflexivity|constructor; auto|exact Stop_e].
+    - destruct (et ++ r) as [|b t0] eqn:Eer; [reflexivity|].
       assert (b <> 46).
-      { destruct HE as [|e0 sg' ds He0 _ _]; cbn [app] in Eer.
-        - subst r. apply Hr.
-        - inversion Eer; subst. lia. }
-      replace (b =? 46) with false by lia. reflexivity.
-    - cbn. destruct (digits_head _ Hds) as [d [t0 [-> [Hd Ht0]]]].
-      rewrite (span_digits_complete (d :: t0) (e ++ r)); [reflexivity|constructor; auto|exact Stop_e]. }
+      { subst et. destruct e as [[[e0 sg] d]|]; cbn [app] in Eer.
+        - destruct HE as [He0 _]. inversion Eer; subst. lia.
+        - subst r. apply Hr. }
+      replace (b =? 46) with false by lia. reflexivity. }
   rewrite Hf; clear Hf.
   (* exponent *)
-  assert (He : match e ++ r with
+  assert (He : match et ++ r with
                | b :: t0 => if (b =? 101) || (b =? 69) then
                               let '(sg0, t') := match t0 with
                                                | c :: u => if (c =? 43) || (c =? 45) then ([c], u) else ([], t0)
                                                | [] => ([], t0) end in
                               let '(d, r0) := span_digits t' in
                               match d with [] => None | _ => Some (Some (b, sg0, d), r0) end
-                            else Some (None, e ++ r)
-               | [] => Some (None, e ++ r) end
-               = Some (match e with [] => None | e0 :: u =>
-                         Some (e0, match u with c :: _ => if (c =? 43) || (c =? 45) then [c] else [] | [] => [] end,
-                               match u with c :: u' => if (c =? 43) || (c =? 45) then u' else u | [] => [] end) end, r)).
-  { destruct HE as [|e0 sg' ds He0 Hsg' Hds]; cbn [app].
-    - destruct r as [|b t0]; [reflexivity|]. destruct Hr as [_ [_ [? [? _]]]].
-      replace ((b =? 101) || (b =? 69)) with false by lia. reflexivity.
-    - replace ((e0 =? 101) || (e0 =? 69)) with true by lia.
+                            else Some (None, et ++ r)
+               | [] => Some (None, et ++ r) end
+               = Some (e, r)).
+  { subst et. destruct e as [[[e0 sg] ds]|]; cbn [app].
+    - destruct HE as [He0 [Hsg Hds]].
+      replace ((e0 =? 101) || (e0 =? 69)) with true by lia.
       destruct (digits_head _ Hds) as [d [t0 [-> [Hd Ht0]]]].
-      assert (Stop_r : match r with b :: _ => is_digit b = false | [] => True end).
-      { destruct r; [exact I|]. apply Hr. }
-      destruct Hsg' as [-> | [-> | ->]]; cbn [app].
+      destruct Hsg as [-> | [-> | ->]]; cbn [app].
       + unfold digit in Hd. replace ((d =? 43) || (d =? 45)) with false by lia.
         change (d :: t0 ++ r) with ((d :: t0) ++ r).
         rewrite (span_digits_complete (d :: t0) r); [reflexivity|constructor; auto|exact Stop_r].
       + cbn -[span_digits]. change (d :: t0 ++ r) with ((d :: t0) ++ r).
         rewrite (span_digits_complete (d :: t0) r); [reflexivity|constructor; auto|exact Stop_r].
       + cbn -[span_digits]. change (d :: t0 ++ r) with ((d :: t0) ++ r).
-        rewrite (span_digits_complete (d :: t0) r); [reflexivity|constructor; auto|exact Stop_r]. }
-  rewrite He; clear He.
-  eexists; split; [reflexivity|].
-  unfold np_text; cbn [np_neg np_int np_frac np_exp].
-  f_equal; [destruct Hsg as [-> | ->]; reflexivity|]. f_equal. f_equal.
-  - destruct HF; reflexivity.
-  - destruct HE as [|e0 sg' ds He0 Hsg' Hds]; [reflexivity|].
-    destruct (digits_head _ Hds) as [d [t0 [-> [Hd Ht0]]]]. unfold digit in Hd.
-    destruct Hsg' as [-> | [-> | ->]]; cbn [app]; [|reflexivity|reflexivity].
-    replace ((d =? 43) || (d =? 45)) with false by lia. reflexivity.
+        rewrite (span_digits_complete (d :: t0) r); [reflexivity|constructor; auto|exact Stop_r].
+    - destruct r as [|b t0]; [reflexivity|]. destruct Hr as [_ [_ [? [? _]]]].
+      replace ((b =? 101) || (b =? 69)) with false by lia. reflexivity. }
+  rewrite He. reflexivity.
 Qed.
+
+Lemma scan_number_complete t r : JNumber t -> num_stop r ->
+  exists p, scan_number (t ++ r) = Some (p, r) /\ np_text p = t.
+Proof.
+  intros HN Hr. apply JNumber_np in HN. destruct HN as [p [Hp <-]].
+  exists p. split; auto. apply scan_number_complete_np; auto.
+Qed.
+
+Lemma num_dec_np p : np_wf p -> num_dec (np_text p) = Some (np_dec p).
+Proof.
+  intros Hp. unfold num_dec. pose proof (scan_number_complete_np p [] Hp I) as S.
+  rewrite app_nil_r in S. rewrite S. reflexivity.
+Qed.
+
 
 Theorem is_json_number_correct t : is_json_number t = true <-> JNumber t.
 Proof.
@@ -561,7 +610,7 @@ Fixpoint parse_chars (fuel : nat) (s : list N) : option (list N * list N) :=
                     | None => None
                     | Some lo =>
                       if (0xDC00 <=? lo) && (lo <? 0xE000)
-                      then ocons (0x10000 + (c - 0xD800) * 1024 + (lo - 0xDC00)) (parse_chars f (skipn 4 t''))
+                      then ocons (surr_pair c lo) (parse_chars f (skipn 4 t''))
                       else None
                     end
                   else None
@@ -731,6 +780,10 @@ Proof. destruct hs as [|a [|b [|c' [|d [|x y]]]]]; cbn; try discriminate; auto. 
 Lemma firstn_skipn_4 (l : list N) c : hex4 (firstn 4 l) = Some c -> l = firstn 4 l ++ skipn 4 l.
 Proof. intros _. symmetry. apply firstn_skipn. Qed.
 
+Lemma ocons_some c r cs rest :
+  ocons c r = Some (cs, rest) -> exists cs', r = Some (cs', rest) /\ cs = c :: cs'.
+Proof. destruct r as [[cs' r']|]; cbn; [|discriminate]. intros H; inversion H; subst. eauto. Qed.
+
 Lemma parse_chars_sound f s cs r :
   parse_chars f s = Some (cs, r) -> exists body, s = body ++ [0x22] ++ r /\ JChars body cs.
 Proof.
@@ -745,8 +798,7 @@ Proof.
     - assert (e = 0x75) by lia; subst e.
       destruct (hex4 (firstn 4 t')) as [c|] eqn:Hx; [|discriminate].
       destruct ((c <? 0xD800) || (0xE000 <=? c)) eqn:Ec.
-      + destruct (parse_chars f (skipn 4 t')) as [[cs' r']|] eqn:P; [|discriminate].
-        unfold ocons in H. inversion H; subst. destruct (IH _ _ _ P) as [body [E J]].
+      + destruct (ocons_some _ _ _ _ H) as [cs' [P ->]]; clear H. destruct (IH _ _ _ P) as [body [E J]].
         exists ([0x5C; 0x75] ++ firstn 4 t' ++ body). split.
         * rewrite <- (firstn_skipn 4 t') at 1. rewrite E. cbn [app]. rewrite <- !app_assoc. reflexivity.
         * apply JC_u; auto. lia.
@@ -755,8 +807,7 @@ Proof.
         destruct ((b1 =? 0x5C) && (b2 =? 0x75)) eqn:E12; [|discriminate].
         destruct (hex4 (firstn 4 t'')) as [lo|] eqn:Hx2; [|discriminate].
         destruct ((0xDC00 <=? lo) && (lo <? 0xE000)) eqn:Elo; [|discriminate].
-        destruct (parse_chars f (skipn 4 t'')) as [[cs' r']|] eqn:P; [|discriminate].
-        unfold ocons in H. inversion H; subst. destruct (IH _ _ _ P) as [body [E J]].
+        destruct (ocons_some _ _ _ _ H) as [cs' [P ->]]; clear H. destruct (IH _ _ _ P) as [body [E J]].
         exists ([0x5C; 0x75] ++ firstn 4 t' ++ [0x5C; 0x75] ++ firstn 4 t'' ++ body). split.
         * rewrite <- (firstn_skipn 4 t') at 1. rewrite Sk.
           rewrite <- (firstn_skipn 4 t'') at 1. rewrite E.
@@ -764,14 +815,12 @@ Proof.
           cbn [app]. rewrite <- !app_assoc. cbn [app]. rewrite <- !app_assoc. reflexivity.
         * apply JC_upair; auto; lia.
     - destruct (esc2 e) as [c|] eqn:E2; [|discriminate].
-      destruct (parse_chars f t') as [[cs' r']|] eqn:P; [|discriminate].
-      unfold ocons in H. inversion H; subst. destruct (IH _ _ _ P) as [body [E J]].
+      destruct (ocons_some _ _ _ _ H) as [cs' [P ->]]; clear H. destruct (IH _ _ _ P) as [body [E J]].
       exists (0x5C :: e :: body). split; [rewrite E; reflexivity|].
       apply JC_esc2; auto. apply esc2_table_spec; auto. }
   destruct (b <? 0x20) eqn:E20; [discriminate|].
   destruct (go_decode_rune (b :: t)) as [[c n]|] eqn:D; [|discriminate].
-  destruct (parse_chars f (skipn n (b :: t))) as [[cs' r']|] eqn:P; [|discriminate].
-  unfold ocons in H. inversion H; subst. destruct (IH _ _ _ P) as [body [E J]].
+  destruct (ocons_some _ _ _ _ H) as [cs' [P ->]]; clear H. destruct (IH _ _ _ P) as [body [E J]].
   destruct (go_decode_rune_sound _ _ _ D) as [HU [Hn Hp]].
   exists (firstn n (b :: t) ++ body). split.
   - rewrite <- (firstn_skipn n (b :: t)) at 1. rewrite E, <- app_assoc. reflexivity.
@@ -806,17 +855,17 @@ Proof.
     destruct (b =? 0x22) eqn:Eq.
     { assert (b = 0x22) by lia; subst b.
       destruct (parse_chars (S (length t)) t) as [[cs r']|] eqn:P; [|discriminate].
-      inversion H; subst. destruct (parse_string_sound _ _ _ P) as [st [E J]].
+      injection H as <- <-. destruct (parse_string_sound _ _ _ P) as [st [E J]].
       exists st. split; auto. constructor; auto. }
     destruct (b =? 0x5B) eqn:Ea.
     { assert (b = 0x5B) by lia; subst b.
       destruct (skip_ws t) as [|c t1] eqn:Sk; [discriminate|].
       destruct (c =? 0x5D) eqn:Ec.
-      - inversion H; subst. destruct (skip_ws_spec t) as [w [E Hw]]. rewrite Sk in E.
+      - injection H as <- <-. destruct (skip_ws_spec t) as [w [E Hw]]. rewrite Sk in E.
         exists ([0x5B] ++ w ++ [0x5D]). split.
         + rewrite E. assert (c = 0x5D) by lia; subst c. cbn [app]. rewrite <- app_assoc. reflexivity.
         + constructor; auto.
-      - destruct (parse_elems f t) as [[l r']|] eqn:P; [|discriminate]. inversion H; subst.
+      - destruct (parse_elems f t) as [[l r']|] eqn:P; [|discriminate]. injection H as <- <-.
         destruct (IHe _ _ _ P) as [es [E J]]. exists ([0x5B] ++ es ++ [0x5D]). split.
         + rewrite E. cbn [app]. rewrite <- app_assoc. reflexivity.
         + constructor; auto. }
@@ -824,22 +873,22 @@ Proof.
     { assert (b = 0x7B) by lia; subst b.
       destruct (skip_ws t) as [|c t1] eqn:Sk; [discriminate|].
       destruct (c =? 0x7D) eqn:Ec.
-      - inversion H; subst. destruct (skip_ws_spec t) as [w [E Hw]]. rewrite Sk in E.
+      - injection H as <- <-. destruct (skip_ws_spec t) as [w [E Hw]]. rewrite Sk in E.
         exists ([0x7B] ++ w ++ [0x7D]). split.
         + rewrite E. assert (c = 0x7D) by lia; subst c. cbn [app]. rewrite <- app_assoc. reflexivity.
         + constructor; auto.
-      - destruct (parse_members f t) as [[l r']|] eqn:P; [|discriminate]. inversion H; subst.
+      - destruct (parse_members f t) as [[l r']|] eqn:P; [|discriminate]. injection H as <- <-.
         destruct (IHm _ _ _ P) as [es [E J]]. exists ([0x7B] ++ es ++ [0x7D]). split.
         + rewrite E. cbn [app]. rewrite <- app_assoc. reflexivity.
         + constructor; auto. }
     destruct (strip_prefix lit_null (b :: t)) as [r0|] eqn:P0.
-    { inversion H; subst. exists lit_null. split; [apply strip_prefix_spec; auto|constructor]. }
+    { injection H as <- <-. exists lit_null. split; [apply strip_prefix_spec; auto|constructor]. }
     destruct (strip_prefix lit_true (b :: t)) as [r1|] eqn:P1.
-    { inversion H; subst. exists lit_true. split; [apply strip_prefix_spec; auto|constructor]. }
+    { injection H as <- <-. exists lit_true. split; [apply strip_prefix_spec; auto|constructor]. }
     destruct (strip_prefix lit_false (b :: t)) as [r2|] eqn:P2.
-    { inversion H; subst. exists lit_false. split; [apply strip_prefix_spec; auto|constructor]. }
+    { injection H as <- <-. exists lit_false. split; [apply strip_prefix_spec; auto|constructor]. }
     destruct (scan_number (b :: t)) as [[p r3]|] eqn:P3; [|discriminate].
-    inversion H; subst. destruct (scan_number_sound _ _ _ P3) as [E J].
+    injection H as <- <-. destruct (scan_number_sound _ _ _ P3) as [E J].
     exists (np_text p). split; auto. constructor; auto.
   - (* elements *)
     intros s l r H. cbn [parse_elems] in H.
@@ -850,13 +899,13 @@ Proof.
     assert (HJ : Json (w ++ t ++ w2) v) by (constructor; auto).
     destruct (c =? 0x2C) eqn:Ec.
     + assert (c = 0x2C) by lia; subst c.
-      destruct (parse_elems f r1) as [[l' r2]|] eqn:P2; [|discriminate]. inversion H; subst.
+      destruct (parse_elems f r1) as [[l' r2]|] eqn:P2; [|discriminate]. injection H as <- <-.
       destruct (IHe _ _ _ P2) as [es [E3 J3]].
       exists ((w ++ t ++ w2) ++ [0x2C] ++ es). split.
       * rewrite E, E2, E3. rewrite <- !app_assoc. reflexivity.
       * constructor; auto.
     + destruct (c =? 0x5D) eqn:Ed; [|discriminate]. assert (c = 0x5D) by lia; subst c.
-      inversion H; subst. exists (w ++ t ++ w2). split.
+      injection H as <- <-. exists (w ++ t ++ w2). split.
       * rewrite E, E2. rewrite <- !app_assoc. reflexivity.
       * constructor; auto.
   - (* members *)
@@ -876,13 +925,13 @@ Proof.
     assert (HJ : Json (w3 ++ vt ++ w4) v) by (constructor; auto).
     destruct (c2 =? 0x2C) eqn:Ec2.
     + assert (c2 = 0x2C) by lia; subst c2.
-      destruct (parse_members f r3) as [[kvs' r4]|] eqn:Pm; [|discriminate]. inversion H; subst.
+      destruct (parse_members f r3) as [[kvs' r4]|] eqn:Pm; [|discriminate]. injection H as <- <-.
       destruct (IHm _ _ _ Pm) as [ms [E5 J5]].
       exists (w1 ++ kt ++ w2 ++ [0x3A] ++ (w3 ++ vt ++ w4) ++ [0x2C] ++ ms). split.
       * rewrite E1, Ek, E2, E3, E4, E5. rewrite <- !app_assoc. reflexivity.
       * constructor; auto.
     + destruct (c2 =? 0x7D) eqn:Ed; [|discriminate]. assert (c2 = 0x7D) by lia; subst c2.
-      inversion H; subst.
+      injection H as <- <-.
       exists (w1 ++ kt ++ w2 ++ [0x3A] ++ (w3 ++ vt ++ w4)). split.
       * rewrite E1, Ek, E2, E3, E4. rewrite <- !app_assoc. reflexivity.
       * constructor; auto.
@@ -897,4 +946,259 @@ Proof.
   destruct (skip_ws_spec bs) as [w1 [E1 Hw1]].
   destruct (skip_ws_spec r) as [w2 [E2 Hw2]]. rewrite Sk, app_nil_r in E2. subst r.
   rewrite E1, E. constructor; auto.
+Qed.
+
+(* ================================================================== *)
+(* Completeness of the parser, and: a text denotes at most one value    *)
+
+Ltac lenlia :=
+  repeat match goal with
+         | H : context [length (_ ++ _)] |- _ => rewrite app_length in H
+         | H : context [length (_ :: _)] |- _ => progress cbn [length] in H
+         end;
+  repeat ((rewrite app_length) || (progress cbn [length])); lia.
+
+Lemma firstn_exact {A} n (a b : list A) : length a = n -> firstn n (a ++ b) = a.
+Proof. intros <-. rewrite firstn_app, Nat.sub_diag, firstn_all. cbn. apply app_nil_r. Qed.
+Lemma skipn_exact {A} n (a b : list A) : length a = n -> skipn n (a ++ b) = b.
+Proof. intros <-. rewrite skipn_app, Nat.sub_diag, skipn_all. reflexivity. Qed.
+
+Lemma esc2_table_not_u e c : In (e, c) esc2_table -> e <> 0x75.
+Proof.
+  unfold esc2_table. cbn [In]. intros H.
+  repeat (destruct H as [H|H]; [inversion H; subst; lia|]). contradiction.
+Qed.
+
+Lemma parse_chars_complete body cs : JChars body cs ->
+  forall r f, (length body < f)%nat -> parse_chars f (body ++ 0x22 :: r) = Some (cs, r).
+Proof.
+  induction 1 as [|enc c r0 cs HU Hc1 Hc2 Hc3 _ IH|e c r0 cs Hin _ IH|hs c r0 cs Hx Hc _ IH
+                  |hs1 hi hs2 lo r0 cs Hx1 Hhi Hx2 Hlo _ IH]; intros r f Hf;
+    (destruct f as [|f]; [lia|]).
+  - reflexivity.
+  - rewrite <- app_assoc. pose proof (go_decode_rune_complete _ _ (r0 ++ 0x22 :: r) HU) as D.
+    pose proof (U8_nonempty _ _ HU) as Hn.
+    assert (Hb : exists b e', enc = b :: e' /\ b <> 0x22 /\ b <> 0x5C /\ 0x20 <= b).
+    { destruct HU; unfold cont in *; eexists _, _; (split; [reflexivity|]); lia. }
+    destruct Hb as [b [e' [-> [B1 [B2 B3]]]]].
+    cbn [app parse_chars].
+    replace (b =? 0x22) with false by lia. replace (b =? 0x5C) with false by lia.
+    replace (b <? 0x20) with false by lia.
+    change (b :: e' ++ r0 ++ 0x22 :: r) with ((b :: e') ++ r0 ++ 0x22 :: r).
+    rewrite D, (skipn_exact _ _ _ eq_refl), IH; [reflexivity|].
+    lenlia.
+  - cbn [app parse_chars].
+    change (0x5C =? 0x22) with false. change (0x5C =? 0x5C) with true. cbv iota.
+    pose proof (esc2_table_not_u _ _ Hin). replace (e =? 0x75) with false by lia.
+    rewrite (proj2 (esc2_table_spec e c) Hin), IH; [reflexivity|]. cbn [length] in Hf. lia.
+  - pose proof (hex4_length _ _ Hx) as Hl.
+    rewrite <- !app_assoc. cbn [app parse_chars].
+    change (0x5C =? 0x22) with false. change (0x5C =? 0x5C) with true. change (0x75 =? 0x75) with true. cbv iota.
+    rewrite (firstn_exact 4 hs _ Hl), Hx, (skipn_exact 4 hs _ Hl).
+    replace ((c <? 0xD800) || (0xE000 <=? c)) with true by lia.
+    rewrite IH; [reflexivity|]. lenlia.
+  - pose proof (hex4_length _ _ Hx1) as Hl1. pose proof (hex4_length _ _ Hx2) as Hl2.
+    rewrite <- !app_assoc. cbn [app parse_chars].
+    change (0x5C =? 0x22) with false. change (0x5C =? 0x5C) with true. change (0x75 =? 0x75) with true. cbv iota.
+    rewrite (firstn_exact 4 hs1 _ Hl1), Hx1, (skipn_exact 4 hs1 _ Hl1).
+    replace ((hi <? 0xD800) || (0xE000 <=? hi)) with false by lia.
+    replace (hi <? 0xDC00) with true by lia.
+    change (0x5C =? 0x5C) with true. change (0x75 =? 0x75) with true. cbn [andb].
+    rewrite (firstn_exact 4 hs2 _ Hl2), Hx2, (skipn_exact 4 hs2 _ Hl2).
+    replace ((0xDC00 <=? lo) && (lo <? 0xE000)) with true by lia.
+    rewrite IH; [reflexivity|]. lenlia.
+Qed.
+
+(* first byte of a value *)
+Definition vstart (b : N) : Prop :=
+  b = 0x22 \/ b = 0x5B \/ b = 0x7B \/ b = 110 \/ b = 116 \/ b = 102 \/ b = 45 \/ digit b.
+
+Lemma vstart_nows b : vstart b -> is_ws b = false /\ b <> 0x5D /\ b <> 0x7D /\ b <> 0x2C /\ b <> 0x3A.
+Proof. unfold vstart, digit, is_ws. lia. Qed.
+
+Lemma JNumber_head t : JNumber t -> exists b t0, t = b :: t0 /\ (b = 45 \/ digit b).
+Proof.
+  intros [sg i f e Hsg HI _ _]. destruct Hsg as [-> | ->]; cbn [app]; [|eauto].
+  destruct HI as [|d ds Hd _]; cbn [app]; eexists _, _; (split; [reflexivity|]); right; unfold digit; lia.
+Qed.
+
+Lemma JVal_head t v : JVal t v -> exists b t0, t = b :: t0 /\ vstart b.
+Proof.
+  unfold vstart. destruct 1 as [| | |t HN|t cs HS|w|es l|w|ms kvs]; cbn [app].
+  - eexists _, _; split; [reflexivity|]; tauto.
+  - eexists _, _; split; [reflexivity|]; tauto.
+  - eexists _, _; split; [reflexivity|]; tauto.
+  - destruct (JNumber_head _ HN) as [b [t0 [-> Hb]]]. eexists _, _; split; [reflexivity|]; tauto.
+  - destruct HS. cbn [app]. eexists _, _; split; [reflexivity|]; tauto.
+  - eexists _, _; split; [reflexivity|]; tauto.
+  - eexists _, _; split; [reflexivity|]; tauto.
+  - eexists _, _; split; [reflexivity|]; tauto.
+  - eexists _, _; split; [reflexivity|]; tauto.
+Qed.
+
+Lemma Json_head t v : Json t v -> exists w b t0, t = w ++ b :: t0 /\ ws w /\ vstart b.
+Proof.
+  destruct 1 as [w1 t w2 v H1 HV H2]. destruct (JVal_head _ _ HV) as [b [t0 [-> Hb]]].
+  exists w1, b, (t0 ++ w2). auto.
+Qed.
+
+Lemma JElems_head es l : JElems es l -> exists w b t0, es = w ++ b :: t0 /\ ws w /\ vstart b.
+Proof.
+  destruct 1 as [t v J|t v r l J _]; destruct (Json_head _ _ J) as [w [b [t0 [-> [Hw Hb]]]]].
+  - exists w, b, t0. auto.
+  - exists w, b, (t0 ++ [0x2C] ++ r). rewrite <- app_assoc. auto.
+Qed.
+
+Lemma JMembers_head ms kvs : JMembers ms kvs -> exists w t0, ms = w ++ 0x22 :: t0 /\ ws w.
+Proof.
+  destruct 1 as [w1 kt w2 k vt v H1 K _ _|w1 kt w2 k vt v r kvs H1 K _ _ _]; destruct K as [body k _];
+    cbn [app]; eauto.
+Qed.
+
+Definition follow (r : list N) : Prop :=
+  match r with [] => True | b :: _ => is_ws b = true \/ b = 0x2C \/ b = 0x5D \/ b = 0x7D end.
+Definition nows (r : list N) : Prop :=
+  match r with [] => True | b :: _ => is_ws b = false end.
+
+Lemma follow_num_stop r : follow r -> num_stop r.
+Proof. destruct r as [|b t]; [auto|]. unfold follow, num_stop, is_ws, is_digit. lia. Qed.
+
+Lemma follow_ws_app w r : ws w -> follow r -> follow (w ++ r).
+Proof. intros Hw Hr. destruct Hw as [|b w Hb _]; [exact Hr|]. cbn. auto. Qed.
+
+Definition PV (t : list N) (v : jv) : Prop :=
+  forall r f, follow r -> (2 * length (t ++ r) < f)%nat -> parse_value f (t ++ r) = Some (v, r).
+Definition PJ (t : list N) (v : jv) : Prop :=
+  forall r f, follow r -> nows r -> (2 * length (t ++ r) < f)%nat ->
+    exists r', parse_value f (skip_ws (t ++ r)) = Some (v, r') /\ skip_ws r' = r.
+Definition PE (es : list N) (l : list jv) : Prop :=
+  forall r f, (2 * length (es ++ 0x5D%N :: r) + 1 < f)%nat -> parse_elems f (es ++ 0x5D :: r) = Some (l, r).
+Definition PM (ms : list N) (kvs : list (list N * jv)) : Prop :=
+  forall r f, (2 * length (ms ++ 0x7D%N :: r) + 1 < f)%nat -> parse_members f (ms ++ 0x7D :: r) = Some (kvs, r).
+
+Lemma skip_ws_to w b t : ws w -> is_ws b = false -> skip_ws (w ++ b :: t) = b :: t.
+Proof. intros Hw Hb. rewrite skip_ws_app by auto. cbn. rewrite Hb. reflexivity. Qed.
+
+Lemma parse_complete_all :
+  (forall t v, JVal t v -> PV t v) /\ (forall t v, Json t v -> PJ t v) /\
+  (forall es l, JElems es l -> PE es l) /\ (forall ms kvs, JMembers ms kvs -> PM ms kvs).
+Proof.
+  apply Json_mutind; unfold PV, PJ, PE, PM.
+  - (* null *) intros r f _ Hf. destruct f as [|f]; [lia|]. reflexivity.
+  - (* true *) intros r f _ Hf. destruct f as [|f]; [lia|]. reflexivity.
+  - (* false *) intros r f _ Hf. destruct f as [|f]; [lia|]. reflexivity.
+  - (* number *)
+    intros t HN r f Hr Hf. destruct f as [|f]; [lia|].
+    destruct (scan_number_complete t r HN (follow_num_stop _ Hr)) as [p [S Ep]].
+    destruct (JNumber_head _ HN) as [b [t0 [-> Hb]]]. unfold digit in Hb.
+    cbn [app parse_value] in *.
+    replace (b =? 0x22) with false by lia. replace (b =? 0x5B) with false by lia.
+    replace (b =? 0x7B) with false by lia.
+    unfold lit_null, lit_true, lit_false. cbn [strip_prefix].
+    replace (110 =? b) with false by lia. replace (116 =? b) with false by lia.
+    replace (102 =? b) with false by lia.
+    rewrite S, Ep. reflexivity.
+  - (* string *)
+    intros t cs HS r f Hr Hf. destruct f as [|f]; [lia|]. destruct HS as [body cs HC].
+    rewrite <- !app_assoc. cbn [app parse_value]. change (0x22 =? 0x22) with true. cbv iota.
+    rewrite (parse_chars_complete _ _ HC); [reflexivity|]. lenlia.
+  - (* [] *)
+    intros w Hw r f Hr Hf. destruct f as [|f]; [lia|].
+    rewrite <- !app_assoc. cbn [app parse_value].
+    change (0x5B =? 0x22) with false. change (0x5B =? 0x5B) with true. cbv iota.
+    rewrite (skip_ws_to w 0x5D r Hw eq_refl). reflexivity.
+  - (* array *)
+    intros es l HE IH r f Hr Hf. destruct f as [|f]; [lia|].
+    destruct (JElems_head _ _ HE) as [w [b [t0 [Ees [Hw Hb]]]]].
+    destruct (vstart_nows _ Hb) as [Nb [B1 _]].
+    rewrite <- !app_assoc. cbn [app parse_value].
+    change (0x5B =? 0x22) with false. change (0x5B =? 0x5B) with true. cbv iota.
+    rewrite Ees at 1. rewrite <- app_assoc. cbn [app]. rewrite (skip_ws_to w b _ Hw Nb).
+    replace (b =? 0x5D) with false by lia.
+    rewrite IH; [reflexivity|]. lenlia.
+  - (* {} *)
+    intros w Hw r f Hr Hf. destruct f as [|f]; [lia|].
+    rewrite <- !app_assoc. cbn [app parse_value].
+    change (0x7B =? 0x22) with false. change (0x7B =? 0x5B) with false. change (0x7B =? 0x7B) with true. cbv iota.
+    rewrite (skip_ws_to w 0x7D r Hw eq_refl). reflexivity.
+  - (* object *)
+    intros ms kvs HM IH r f Hr Hf. destruct f as [|f]; [lia|].
+    destruct (JMembers_head _ _ HM) as [w [t0 [Ems Hw]]].
+    rewrite <- !app_assoc. cbn [app parse_value].
+    change (0x7B =? 0x22) with false. change (0x7B =? 0x5B) with false. change (0x7B =? 0x7B) with true. cbv iota.
+    rewrite Ems at 1. rewrite <- app_assoc. cbn [app]. rewrite (skip_ws_to w 0x22 _ Hw eq_refl).
+    change (0x22 =? 0x7D) with false. cbv iota.
+    rewrite IH; [reflexivity|]. lenlia.
+  - (* ws value ws *)
+    intros w1 t w2 v H1 HV IH H2 r f Hr Hn Hf.
+    destruct (JVal_head _ _ HV) as [b [t0 [Et Hb]]]. destruct (vstart_nows _ Hb) as [Nb _].
+    exists (w2 ++ r). split.
+    + rewrite <- !app_assoc. rewrite skip_ws_app by auto.
+      rewrite skip_ws_id by (rewrite Et; cbn; exact Nb).
+      apply IH; [apply follow_ws_app; auto|]. lenlia.
+    + rewrite skip_ws_app by auto. apply skip_ws_id. exact Hn.
+  - (* one element *)
+    intros t v J IH r f Hf. destruct f as [|f]; [lia|]. cbn [parse_elems].
+    destruct (IH (0x5D :: r) f) as [r' [P Sk]]; [cbn; auto|reflexivity|lenlia|].
+    rewrite P, Sk. reflexivity.
+  - (* more elements *)
+    intros t v r0 l J IH1 HE IH2 r f Hf. destruct f as [|f]; [lia|]. cbn [parse_elems].
+    rewrite <- !app_assoc. cbn [app].
+    rewrite <- !app_assoc in Hf. cbn [app] in Hf.
+    destruct (IH1 (0x2C :: r0 ++ 0x5D :: r) f) as [r' [P Sk]]; [cbn; auto|reflexivity|lenlia|].
+    rewrite P, Sk. change (0x2C =? 0x2C) with true. cbv iota.
+    rewrite IH2; [reflexivity|]. lenlia.
+  - (* one member *)
+    intros w1 kt w2 k vt v H1 K H2 J IH r f Hf. destruct f as [|f]; [lia|]. cbn [parse_members].
+    destruct K as [body k HC].
+    rewrite <- !app_assoc. cbn [app]. rewrite <- !app_assoc in Hf. cbn [app] in Hf.
+    rewrite (skip_ws_to w1 0x22 _ H1 eq_refl). change (0x22 =? 0x22) with true. cbv iota.
+    rewrite <- ?app_assoc; cbn [app].
+    rewrite (parse_chars_complete _ _ HC) by lenlia.
+    rewrite (skip_ws_to w2 0x3A _ H2 eq_refl). change (0x3A =? 0x3A) with true. cbv iota.
+    destruct (IH (0x7D :: r) f) as [r' [P Sk]]; [cbn; auto|reflexivity|lenlia|].
+    rewrite P, Sk. reflexivity.
+  - (* more members *)
+    intros w1 kt w2 k vt v r0 kvs H1 K H2 J IH1 HM IH2 r f Hf. destruct f as [|f]; [lia|]. cbn [parse_members].
+    destruct K as [body k HC].
+    rewrite <- !app_assoc. cbn [app]. rewrite <- !app_assoc in Hf. cbn [app] in Hf.
+    rewrite (skip_ws_to w1 0x22 _ H1 eq_refl). change (0x22 =? 0x22) with true. cbv iota.
+    rewrite <- ?app_assoc; cbn [app].
+    rewrite (parse_chars_complete _ _ HC) by lenlia.
+    rewrite (skip_ws_to w2 0x3A _ H2 eq_refl). change (0x3A =? 0x3A) with true. cbv iota.
+    destruct (IH1 (0x2C :: r0 ++ 0x7D :: r) f) as [r' [P Sk]];
+      [cbn; auto|reflexivity|lenlia|].
+    rewrite P, Sk. change (0x2C =? 0x2C) with true. cbv iota.
+    rewrite IH2; [reflexivity|]. lenlia.
+Qed.
+
+Theorem parse_json_complete bs v : Json bs v -> parse_json bs = Some v.
+Proof.
+  intros J. unfold parse_json.
+  destruct (proj1 (proj2 parse_complete_all) _ _ J [] (2 * length bs + 2)%nat I I) as [r' [P Sk]].
+  { rewrite app_nil_r. lia. }
+  rewrite app_nil_r in P. rewrite P, Sk. reflexivity.
+Qed.
+
+Theorem parse_json_correct bs v : parse_json bs = Some v <-> Json bs v.
+Proof. split; [apply parse_json_sound|apply parse_json_complete]. Qed.
+
+(* a text denotes at most one value *)
+Theorem json_functional t v1 v2 : Json t v1 -> Json t v2 -> v1 = v2.
+Proof.
+  intros H1 H2. apply parse_json_complete in H1. apply parse_json_complete in H2. congruence.
+Qed.
+
+Corollary JString_functional t cs1 cs2 : JString t cs1 -> JString t cs2 -> cs1 = cs2.
+Proof.
+  intros H1 H2. pose proof (json_functional t _ _ (Json_str _ _ H1) (Json_str _ _ H2)) as E.
+  inversion E; reflexivity.
+Qed.
+
+(* the parser decides the relation *)
+Corollary Json_dec_value bs : {v | Json bs v} + {forall v, ~ Json bs v}.
+Proof.
+  destruct (parse_json bs) as [v|] eqn:P.
+  - left. exists v. apply parse_json_sound; auto.
+  - right. intros v J. apply parse_json_complete in J. congruence.
 Qed.
